@@ -80,6 +80,8 @@ def run_noloss(case):
         classes.add("own delay decides")
     if any(d == 0 for _, d in calls):
         classes.add("zero delay")
+    if any(0 < (d % (2 ** -20)) for _, d in calls):
+        classes.add("sub-nanosecond delay component")
     if any(a for a in case.get("ages", [])[:len(ins)]):
         classes.add("packet older than its entry into the wire")
     if case["loss_rate"] == 0:
@@ -465,8 +467,11 @@ def noloss_strategy(tier):
 
     def build(exact):
         if exact:
+            # incl. delays and delay differences far below a nanosecond (still exact in binary floating point)
             dl = st.lists(kgen.weighted([(st.sampled_from([0, 1 / 1024, 1 / 8, 0.5, 1, 2, 4]), 3),
-                                         (st.integers(0, 4096).map(lambda k: k / 1024), 1)]), min_size=1, max_size=8)
+                                         (st.integers(0, 4096).map(lambda k: k / 1024), 1),
+                                         (st.sampled_from([2 ** -32, 3 * 2 ** -33, 0.5 + 2 ** -32, 1 + 2 ** -31, 2 ** -40]), 1)]),
+                          min_size=1, max_size=8)
         else:
             dl = st.lists(st.sampled_from([0.0, 0.001, 0.01, 0.1, 0.3, 0.7, 1.1, 2.5]), min_size=1, max_size=8)
         wl = netlab.workload([0, 1], n_max=50 if big else 25, exact=exact, min_size=3, late=True)
@@ -511,7 +516,7 @@ PROP = Property(
     facets=[
         Facet("noloss", noloss_strategy, run_noloss, quick=1200, thorough=8000,
               essential=["held back by predecessor (clamp)", "own delay decides", "zero delay",
-                         "packet older than its entry into the wire"]),
+                         "packet older than its entry into the wire", "sub-nanosecond delay component"]),
         Facet("loss", loss_strategy, run_loss, quick=600, thorough=4000,
               essential=["constant draw below p", "constant draw above p", "seeded draws", "loss rate 1", "some lost, some delivered"]),
         Facet("loss_varying", loss_varying_strategy, run_loss_varying, quick=600, thorough=4000,
